@@ -32,3 +32,9 @@ Proof.
   revert l2. induction l1 as [|a l1 IH]; intros [|b l2] H; cbn in *; try discriminate; [reflexivity|].
   f_equal. apply IH. now inversion H.
 Qed.
+
+Lemma forallb_rev {A} (f : A -> bool) l : forallb f (rev l) = forallb f l.
+Proof.
+  induction l as [|a l IH]; [reflexivity|]. cbn [rev forallb]. rewrite forallb_app, IH. cbn [forallb].
+  rewrite Bool.andb_true_r. apply Bool.andb_comm.
+Qed.
